@@ -15,15 +15,25 @@ git -C /repo worktree add --detach "$W/repo" HEAD >/dev/null 2>&1 || { echo "wor
 # carry over uncommitted /repo changes are NOT included on purpose (HEAD only)
 if ! git -C "$W/repo" apply $REV "$PATCH"; then echo "MUTANT: patch does not apply"; exit 2; fi
 mkdir -p "$W/verif"
-rsync -a --exclude target --exclude 'target-*' /verif/harness "$W/verif/"
+rsync -a --exclude target --exclude 'target-*' --exclude corpus --exclude artifacts /verif/harness "$W/verif/"
+rsync -a /verif/tools "$W/verif/"
+mkdir -p "$W/verif/evidence"
 cp /verif/known_findings.json "$W/verif/"
 find "$W/verif/harness" -name Cargo.toml -print0 | xargs -0 sed -i "s#/repo/#$W/repo/#g"
 cd "$W/verif/harness"
 export CARGO_NET_OFFLINE=true VERIF_ROOT="$W/verif" CARGO_TARGET_DIR="$W/target"
+if [ -n "${MUT_FUZZ:-}" ]; then
+  # MUT_FUZZ="<target> <runs-per-job> <max_len> [jobs]": run only the libFuzzer stage against the mutated tree
+  echo '{"coverage":{}}' > "$W/verif/evidence/$ID.json"
+  "$W/verif/tools/fuzz_stage.sh" "$ID" $MUT_FUZZ 2>&1 | tail -n 8
+  rc=${PIPESTATUS[0]}
+  if [ $rc -eq 1 ]; then echo "MUTANT DETECTED by fuzz stage ($ID, exit 1)"; elif [ $rc -eq 0 ]; then echo "MUTANT MISSED by fuzz stage ($ID, exit 0)"; else echo "fuzz stage inconclusive rc=$rc"; fi
+  exit $rc
+fi
 if ! cargo build --release -p "$CRATE" >"$W/build.log" 2>&1; then
   echo "MUTANT: does not compile with the harness"; tail -20 "$W/build.log"; exit 2
 fi
-if [ -x "props/$CRATE/pre.sh" ]; then "props/$CRATE/pre.sh" "$TIER" >/dev/null 2>&1; fi
+if [ -x "props/$CRATE/pre.sh" ]; then (unset CARGO_TARGET_DIR; "props/$CRATE/pre.sh" "$TIER") >/dev/null 2>&1 || echo "pre.sh failed"; fi
 timeout 3000 "$W/target/release/$CRATE" check --tier "$TIER" --seed "${VERIF_SEED:-0}" "$@" > "$W/out.log" 2>&1
 rc=$?
 grep -E "^(FAILED|VIOLATION|KNOWN-FINDING|C[0-9]+ )" "$W/out.log" | cut -c1-300 | head -12
